@@ -1,8 +1,11 @@
 use std::mem::MaybeUninit;
 
 /// Internal data holder, heavily unsage, do not use it directly.
+#[cfg_attr(feature = "verif-hooks", repr(C))]
 pub struct RecordMaybeUninit<const CAP: usize> {
     data: [MaybeUninit<u8>; CAP],
+    #[cfg(feature = "verif-hooks")]
+    shadow: crate::verif_hooks::Shadow<CAP>,
 }
 
 impl<const CAP: usize> RecordMaybeUninit<CAP> {
@@ -10,6 +13,8 @@ impl<const CAP: usize> RecordMaybeUninit<CAP> {
     pub fn new() -> Self {
         Self {
             data: unsafe { std::mem::MaybeUninit::uninit().assume_init() },
+            #[cfg(feature = "verif-hooks")]
+            shadow: Default::default(),
         }
     }
 
@@ -20,6 +25,12 @@ impl<const CAP: usize> RecordMaybeUninit<CAP> {
     /// This function should not be called by anything but truc-generated code. It is used to put
     /// data written by [`Self::write`] back in a droppable state.
     pub unsafe fn read<T>(&self, offset: usize) -> T {
+        #[cfg(feature = "verif-hooks")]
+        self.shadow.on_access::<T>(
+            crate::verif_hooks::Access::Read,
+            self.data.as_ptr() as usize,
+            offset,
+        );
         std::ptr::read((self.data.as_ptr().add(offset) as *const u8).cast())
     }
 
@@ -30,6 +41,14 @@ impl<const CAP: usize> RecordMaybeUninit<CAP> {
     /// This function should not be called by anything but truc-generated code which is also
     /// responsible for dropping the data by reading the object (see [`Self::read`]).
     pub unsafe fn write<T>(&mut self, offset: usize, t: T) {
+        #[cfg(feature = "verif-hooks")]
+        self.shadow.on_access::<T>(
+            crate::verif_hooks::Access::Write {
+                requires_alignment: false,
+            },
+            self.data.as_ptr() as usize,
+            offset,
+        );
         // The buffer has no alignment by itself: generated constructors and conversions fill a
         // local `RecordMaybeUninit` before moving it into the aligned record type.
         std::ptr::write_unaligned((self.data.as_mut_ptr().add(offset) as *mut u8).cast(), t);
@@ -41,6 +60,12 @@ impl<const CAP: usize> RecordMaybeUninit<CAP> {
     ///
     /// This function should not be called by anything but truc-generated code.
     pub unsafe fn get<T>(&self, offset: usize) -> &T {
+        #[cfg(feature = "verif-hooks")]
+        self.shadow.on_access::<T>(
+            crate::verif_hooks::Access::Get,
+            self.data.as_ptr() as usize,
+            offset,
+        );
         &*(self.data.as_ptr().add(offset) as *mut u8).cast()
     }
 
@@ -50,6 +75,12 @@ impl<const CAP: usize> RecordMaybeUninit<CAP> {
     ///
     /// This function should not be called by anything but truc-generated code.
     pub unsafe fn get_mut<T>(&mut self, offset: usize) -> &mut T {
+        #[cfg(feature = "verif-hooks")]
+        self.shadow.on_access::<T>(
+            crate::verif_hooks::Access::GetMut,
+            self.data.as_ptr() as usize,
+            offset,
+        );
         &mut *(self.data.as_mut_ptr().add(offset) as *mut u8).cast()
     }
 }
